@@ -26,7 +26,7 @@ CHECKS = {
          "Trusts go/ssa dominators, this checker's term/fact extraction; the user-supplied cache returns what was Put; calls are sequential.",
          "DESIGN.md §4 C09"),
  "C13": ("guard-dominance + decoder read-sequence + value-flow of the entropy reader on SSA; AST agreement with GOROOT crypto/ecdsa (legacy math/big path)",
-         "Sound static analysis of structural necessary conditions: range checks dominate the verification core; strict DER parse dominates Verify; entropy fail-closed shape (ReadFull success dominates success, nil results on failure, rand flows nowhere else); hedged-nonce construction; signature encoding; hashToInt identical to the standard library's and the reference verify/sign core statements embed in order in the fork. Does not decide verdict equality with crypto/ecdsa on all inputs (two different arithmetic implementations).",
+         "Sound static analysis of structural necessary conditions: range checks dominate the verification core; strict DER parse dominates Verify; entropy fail-closed shape (ReadFull success dominates success, nil results on failure, rand flows nowhere else); hedged-nonce construction; signature encoding; hashToInt identical to the standard library's (or, when respelled, proved path by path with the linear prover to keep min(len, ceil(orderBits/8)) bytes and shift by max(0, 8K-orderBits)) and the reference verify/sign core statements embed in order in the fork. Does not decide verdict equality with crypto/ecdsa on all inputs (two different arithmetic implementations).",
          "Trusts go/ssa, this checker's extractors and AST matcher, GOROOT's crypto/ecdsa source as reference, io.ReadFull/math/big/cryptobyte as documented.",
          "DESIGN.md §4 C13"),
  "C08": ("symbolic term binding of the returned value + sibling agreement of context terms on SSA",
